@@ -82,6 +82,8 @@ def run(F, rep, tier):
                 if x.get("k") == "Index" or (x.get("k") == "MethodCall" and x["m"] == "unwrap"):
                     contracts[id(x)] = "UNIT char boundary"
     census(F, rep, contracts)
+    import c16
+    c16.no_unsafe(F, rep, "CENSUS")
     cursor_total(F, rep)
     single_visit(F, rep)
     # the loader's work list terminates on import cycles: a file is marked visited before anything can `continue` past it
